@@ -238,6 +238,15 @@ def build(kind, v, s, form="plain", wires=None):
             gate = cls(list(v), label="psi", **kw)
         elif form == "ndarray":
             gate = cls(np.asarray(v), **kw)
+        elif form == "ndarray-refill":
+            # the caller's complex128 buffer is refilled between construction and the lazy definition:
+            # the gate must prepare the vector it was built from (its params), not the buffer's later content
+            buf = np.array(v, dtype=complex)
+            gate = cls(buf, **kw)
+            buf[:] = np.roll(np.conj(buf), 1) * 1j if len(buf) > 1 else -buf
+            if len(buf) > 1 and np.allclose(np.abs(buf), np.abs(np.asarray(v, dtype=complex))):
+                buf[:] = 0
+                buf[0] = 1
         elif form in ("static", "static-qubits"):
             w = declared_width(kind, n, s)
             host = QuantumCircuit(w if form == "static" else w + 1)
@@ -516,7 +525,8 @@ def cases(ctx, nmax, reps):
 def form_cases(ctx):
     """Entry paths of bdsp.py / dcsp.py that the (vector, split) grid does not take: opt_params {} and
     {'split': None} (default split computed in the else-branch), a label, ndarray params, the static
-    `initialize` with qubits=None and with an explicit permuted wire list on a wider host circuit."""
+    `initialize` with qubits=None and with an explicit permuted wire list on a wider host circuit; a complex128
+    buffer that the caller refills between construction and the lazy definition (seeded change C11i)."""
     r = ctx.rng
     for n in (1, 2, 3, 4, 5):
         fam = r.choice(["complex", "sparse", "zero_subtree", "real_signed"])
@@ -529,7 +539,7 @@ def form_cases(ctx):
         for kind in ("bdsp", "dcsp"):
             ss = [None] if kind == "dcsp" else [None, r.randint(1, n)]
             for s in ss:
-                for form in ("label", "ndarray", "static", "static-qubits"):
+                for form in ("label", "ndarray", "ndarray-refill", "static", "static-qubits"):
                     wires = None
                     if form == "static-qubits":
                         w = declared_width(kind, n, s)
